@@ -323,9 +323,26 @@ fn check_decomposition(ctx: &Ctx, c: &Case) -> PResult {
         }
     }
     // model-free adversary: one bit flipped (or the input out of range), input
-    // kept, running sums re-solved row by row (N <= 254: above that the
-    // recorded modulus alias is a second bit vector by construction)
-    if n <= 254 {
+    // kept, running sums re-solved row by row. For N >= 255 the recorded
+    // modulus alias (bits of x + r, x + 2r) is a second bit vector by
+    // construction: that class is excluded from the claim, every other
+    // non-canonical vector still counts.
+    {
+        let alias_vectors: Vec<Vec<F>> = if n >= 255 {
+            let mut v = Vec::new();
+            let mut u = f_int(&x);
+            for _ in 0..2 {
+                let (s2, carry) = u.add(R_MOD);
+                if carry || !s2.fits(n as u32) {
+                    break;
+                }
+                u = s2;
+                v.push(gadget::bits_of(u, n));
+            }
+            v
+        } else {
+            Vec::new()
+        };
         let inp = g.handle_wit(2);
         let i = (c.small as usize) % n;
         let bw = g.handle_wit(3 + i);
@@ -334,8 +351,10 @@ fn check_decomposition(ctx: &Ctx, c: &Case) -> PResult {
             ctx.label("adversary: propagation from a forged bit");
             let wb = want_bits.clone();
             let gref = &g;
+            let aliases = alias_vectors.clone();
             if let Some(msg) = gadget::propagation_attack(&g, &[(inp, x), (bw, fv)], c.seed, &format!("component_decomposition::<{n}>({}), bit {i} {name}", fe_short(&x)), move |asg| {
-                (0..n).any(|j| asg[gref.handle_wit(3 + j)] != wb[j])
+                let got: Vec<F> = (0..n).map(|j| asg[gref.handle_wit(3 + j)]).collect();
+                got != wb && !aliases.iter().any(|a| *a == got)
             })? {
                 return Err(Fail::new("decomposition-resolved-wires-accepted", msg));
             }
@@ -377,6 +396,12 @@ fn check_decomposition(ctx: &Ctx, c: &Case) -> PResult {
         b[i] += F::from(2u64);
         b[i + 1] -= F::one();
         cands.push(("non-boolean digits with the same sum".into(), b));
+    }
+    // one bit flipped and nothing else (the top bit, and a generated position)
+    for (name, i) in [("top bit flipped", n - 1), ("one bit flipped", (c.small as usize * 7 + c.seed as usize) % n)] {
+        let mut b = want_bits.clone();
+        b[i] = F::one() - b[i];
+        cands.push((name.into(), b));
     }
     // top bit absorbs the excess
     {
